@@ -1840,4 +1840,267 @@ theorem toList_fits (v : Bytes) : ∀ it ∈ toList v, it.length ≤ v.length :=
   · intro it hit; simp at hit
   · exact listLoop_fits (v.drop 1) [] [] v.length (by intro it hit; simp at hit) (by simp)
 
+/-! # object life cycle, `p_strchomp` = trim, `p_strtok` (added with the getter / pstring audit) -/
+
+section Audit
+open PV.IniSpec (tokensAux tokens)
+
+
+/-! ## life cycle -/
+
+theorem visible_unparsed (h : Option Handle) (hp : fileIsParsed h = false) : visible h = [] := by
+  cases h with
+  | none => rfl
+  | some x => simp [fileIsParsed] at hp; simp [visible, hp]
+
+theorem findParameter_nil (s k : Bytes) : findParameter [] s k = none := rfl
+
+theorem apiFind_unparsed (h : Option Handle) (hp : fileIsParsed h = false) (sec key : Option Bytes) :
+    apiFind h sec key = none := by
+  unfold apiFind
+  rw [visible_unparsed h hp]
+  cases sec <;> cases key <;> rfl
+
+theorem apiFind_null (h : Option Handle) (sec key : Option Bytes) (hn : sec = none ∨ key = none) :
+    apiFind h sec key = none := by
+  rcases hn with rfl | rfl
+  · rfl
+  · cases sec <;> rfl
+
+/-! ## `p_strchomp` is `trim` -/
+
+theorem isSpace_eq : isSpace = IniSpec.isSpace := rfl
+
+theorem dropWhile_append_stop {α} (p : α → Bool) (a : List α) (c : α) (t : List α)
+    (ha : ∀ x ∈ a, p x = true) (hc : p c = false) : (a ++ c :: t).dropWhile p = c :: t := by
+  induction a with
+  | nil => simp [List.dropWhile, hc]
+  | cons x xs ih =>
+    have hx := ha x (by simp)
+    simp only [List.cons_append, List.dropWhile_cons, hx, if_true]
+    exact ih (fun y hy => ha y (by simp [hy]))
+
+/-- any string is blanks followed by a block that does not start with a blank -/
+theorem ltrim_decomp (s : Bytes) :
+    ∃ l u, s = l ++ u ∧ AllSpace l ∧ u = s.dropWhile isSpace ∧ (u = [] ∨ ∃ y, u.head? = some y ∧ isSpace y = false) := by
+  induction s with
+  | nil => exact ⟨[], [], rfl, by intro x hx; simp at hx, rfl, Or.inl rfl⟩
+  | cons x v ih =>
+    by_cases hx : isSpace x = true
+    · obtain ⟨l, u, hv, hl, hu, hc⟩ := ih
+      refine ⟨x :: l, u, by simp [hv], ?_, ?_, hc⟩
+      · intro z hz; simp only [List.mem_cons] at hz
+        rcases hz with hz | hz
+        · subst hz; exact hx
+        · exact hl z hz
+      · simp [List.dropWhile_cons, hx, hu]
+    · refine ⟨[], x :: v, rfl, by intro z hz; simp at hz, ?_, Or.inr ⟨x, rfl, by simpa using hx⟩⟩
+      simp [List.dropWhile_cons, hx]
+
+theorem chomp_eq_trim (s : Bytes) : chomp s = IniSpec.trim s := by
+  obtain ⟨l, u, hs, hl, hu, hc⟩ := ltrim_decomp s
+  obtain ⟨u', t, hu2, ht, hc2⟩ := rtrim_decomp u
+  unfold IniSpec.trim
+  rw [← isSpace_eq, ← hu]
+  rcases hc2 with hnil | ⟨y, hy, hys⟩
+  · -- everything is blank
+    subst hnil
+    simp only [List.nil_append] at hu2
+    have hall : AllSpace s := by
+      intro x hx; rw [hs] at hx
+      rcases List.mem_append.mp hx with h | h
+      · exact hl x h
+      · rw [hu2] at h; exact ht x h
+    rw [chomp_allSpace s hall, hu2]
+    have : t.reverse.dropWhile isSpace = [] := dropWhile_all _ _ (fun x hx => ht x (by simpa using hx))
+    rw [this]; rfl
+  · -- u' is a non-empty block ending in a non-blank; it also starts with a non-blank
+    have hne : u' ≠ [] := by intro h; rw [h] at hy; simp at hy
+    obtain ⟨a, ha, has⟩ : ∃ a, u'.head? = some a ∧ isSpace a = false := by
+      rcases hc with h | ⟨a, ha, has⟩
+      · rw [h] at hu2
+        have : u' = [] := by
+          have := congrArg List.length hu2; simp at this; exact List.eq_nil_of_length_eq_zero (by omega)
+        exact absurd this hne
+      · refine ⟨a, ?_, has⟩
+        rw [hu2] at ha
+        cases u' with
+        | nil => exact absurd rfl hne
+        | cons b bs => simpa using ha
+    have h1 : chomp s = u' := by
+      rw [hs, hu2, ← List.append_assoc]
+      exact chomp_sandwich' l u' t a y hl ht ha hy has hys
+    rw [h1, hu2]
+    obtain ⟨ys, hY⟩ := List.getLast?_eq_some_iff.mp hy
+    rw [hY]
+    simp only [List.reverse_append, List.reverse_cons, List.reverse_nil, List.nil_append, List.singleton_append]
+    rw [dropWhile_append_stop isSpace t.reverse y ys.reverse (fun x hx => ht x (by simpa using hx)) hys]
+    simp
+
+
+
+/-- the result of `p_strchomp` is empty or starts and ends with a non-blank byte -/
+theorem chomp_shape (s : Bytes) :
+    chomp s = [] ∨ ∃ a y, (chomp s).head? = some a ∧ (chomp s).getLast? = some y ∧ isSpace a = false ∧ isSpace y = false := by
+  obtain ⟨l, u, hs, hl, _, hc⟩ := ltrim_decomp s
+  obtain ⟨u', t, hu2, ht, hc2⟩ := rtrim_decomp u
+  rcases hc2 with hnil | ⟨y, hy, hys⟩
+  · subst hnil
+    simp only [List.nil_append] at hu2
+    left
+    apply chomp_allSpace
+    intro x hx; rw [hs] at hx
+    rcases List.mem_append.mp hx with h | h
+    · exact hl x h
+    · rw [hu2] at h; exact ht x h
+  · right
+    have hne : u' ≠ [] := by intro h; rw [h] at hy; simp at hy
+    obtain ⟨a, ha, has⟩ : ∃ a, u'.head? = some a ∧ isSpace a = false := by
+      rcases hc with h | ⟨a, ha, has⟩
+      · rw [h] at hu2
+        have : u' = [] := by
+          have := congrArg List.length hu2; simp at this; exact List.eq_nil_of_length_eq_zero (by omega)
+        exact absurd this hne
+      · refine ⟨a, ?_, has⟩
+        rw [hu2] at ha
+        cases u' with
+        | nil => exact absurd rfl hne
+        | cons b bs => simpa using ha
+    have h1 : chomp s = u' := by
+      rw [hs, hu2, ← List.append_assoc]
+      exact chomp_sandwich' l u' t a y hl ht ha hy has hys
+    exact ⟨a, y, by rw [h1]; exact ha, by rw [h1]; exact hy, has, hys⟩
+
+theorem chomp_idem (s : Bytes) : chomp (chomp s) = chomp s := by
+  rcases chomp_shape s with h | ⟨a, y, ha, hy, has, hys⟩
+  · rw [h]; decide
+  · have := chomp_sandwich' [] (chomp s) [] a y (by intro x hx; simp at hx) (by intro x hx; simp at hx) ha hy has hys
+    simpa using this
+
+theorem trim_idem (s : Bytes) : IniSpec.trim (IniSpec.trim s) = IniSpec.trim s := by
+  rw [← chomp_eq_trim, ← chomp_eq_trim]; exact chomp_idem s
+
+/-! ## `p_strtok` loop = the maximal delimiter-free runs -/
+
+theorem dropWhile_head_false {α} (p : α → Bool) (l : List α) (b : α) (r : List α) (h : l.dropWhile p = b :: r) :
+    p b = false := by
+  induction l with
+  | nil => simp at h
+  | cons x xs ih =>
+    by_cases hx : p x = true
+    · simp only [List.dropWhile_cons, hx, if_true] at h; exact ih h
+    · simp only [List.dropWhile_cons, hx] at h
+      simp only [Bool.false_eq_true, if_false, List.cons.injEq] at h
+      rw [← h.1]; simpa using hx
+
+theorem takeWhile_cons_true {α} (p : α → Bool) (b : α) (r : List α) (h : p b = true) :
+    (b :: r).takeWhile p = b :: r.takeWhile p := by
+  rw [List.takeWhile_cons]; simp [h]
+
+theorem mem_takeWhile_true {α} (p : α → Bool) (l : List α) (x : α) (h : x ∈ l.takeWhile p) : p x = true := by
+  induction l with
+  | nil => simp at h
+  | cons y ys ih =>
+    by_cases hy : p y = true
+    · rw [takeWhile_cons_true p y ys hy] at h
+      rcases List.mem_cons.mp h with rfl | h'
+      · exact hy
+      · exact ih h'
+    · rw [List.takeWhile_cons] at h; simp [hy] at h
+
+theorem drop_length_takeWhile {α} (p : α → Bool) (l : List α) : l.drop (l.takeWhile p).length = l.dropWhile p := by
+  induction l with
+  | nil => rfl
+  | cons x xs ih =>
+    by_cases hx : p x = true
+    · simp [List.takeWhile_cons, List.dropWhile_cons, hx, ih]
+    · simp [List.takeWhile_cons, List.dropWhile_cons, hx]
+
+theorem tokensAux_cur (isD : UInt8 → Bool) (s cur : Bytes) (hc : cur ≠ []) :
+    tokensAux isD s cur = (cur.reverse ++ s.takeWhile (fun b => !isD b))
+      :: tokensAux isD ((s.dropWhile (fun b => !isD b)).drop 1) [] := by
+  induction s generalizing cur with
+  | nil =>
+    have : cur.isEmpty = false := by cases cur <;> simp_all
+    simp [tokensAux, this]
+  | cons b r ih =>
+    have hce : cur.isEmpty = false := by cases cur <;> simp_all
+    by_cases hb : isD b = true
+    · simp [tokensAux, hb, hce, List.takeWhile_cons, List.dropWhile_cons]
+    · have hb' : isD b = false := by simpa using hb
+      simp only [tokensAux, hb', Bool.false_eq_true, if_false]
+      rw [ih (b :: cur) (by simp)]
+      simp [List.takeWhile_cons, List.dropWhile_cons, hb']
+
+theorem tokensAux_skip (isD : UInt8 → Bool) (s : Bytes) :
+    tokensAux isD s [] = tokensAux isD (s.dropWhile isD) [] := by
+  induction s with
+  | nil => rfl
+  | cons b r ih =>
+    by_cases hb : isD b = true
+    · simp [tokensAux, hb, List.dropWhile_cons, ih]
+    · simp [List.dropWhile_cons, hb]
+
+theorem tokensAux_start (isD : UInt8 → Bool) (b : UInt8) (r : Bytes) (hb : isD b = false) :
+    tokensAux isD (b :: r) [] = (b :: r.takeWhile (fun b => !isD b))
+      :: tokensAux isD ((r.dropWhile (fun b => !isD b)).drop 1) [] := by
+  have := tokensAux_cur isD r [b] (by simp)
+  simpa [tokensAux, hb] using this
+
+theorem length_drop1_dropWhile_le {α} (p : α → Bool) (r : List α) : ((r.dropWhile p).drop 1).length ≤ r.length := by
+  have := length_dropWhile_le' p r
+  simp only [List.length_drop]; omega
+
+theorem strtokLoop_eq_tokens (delim : Bytes) (n : Nat) (s : Bytes) (hn : s.length < n) :
+    strtokLoop delim n s = tokens delim s := by
+  induction n generalizing s with
+  | zero => omega
+  | succ n ih =>
+    unfold tokens
+    rw [tokensAux_skip]
+    simp only [strtokLoop, strtokR]
+    cases hs1 : s.dropWhile delim.contains with
+    | nil => simp [tokensAux]
+    | cons b r =>
+      have hb : delim.contains b = false := dropWhile_head_false _ s b r hs1
+      have hlen : (b :: r).length ≤ s.length := by rw [← hs1]; exact length_dropWhile_le' _ _
+      simp only [List.isEmpty_cons, Bool.false_eq_true, if_false]
+      rw [tokensAux_start _ b r hb]
+      have htw : (b :: r).takeWhile (fun b => !delim.contains b) = b :: r.takeWhile (fun b => !delim.contains b) :=
+        takeWhile_cons_true _ b r (by show (!delim.contains b) = true; rw [hb]; rfl)
+      rw [htw]
+      simp only [List.length_cons, List.drop_succ_cons, drop_length_takeWhile]
+      congr 1
+      have := length_drop1_dropWhile_le (fun b => !delim.contains b) r
+      simp only [List.length_cons] at hlen
+      exact ih _ (by omega)
+
+/-- one call: the token is not empty, has no delimiter in it, and starts where the delimiters end -/
+theorem strtokR_token (delim s tok rest : Bytes) (h : strtokR delim s = some (tok, rest)) :
+    tok ≠ [] ∧ (∀ b ∈ tok, delim.contains b = false) ∧ tok <+: s.dropWhile delim.contains ∧ rest.length < s.length := by
+  simp only [strtokR] at h
+  cases hs1 : s.dropWhile delim.contains with
+  | nil => simp [hs1] at h
+  | cons b r =>
+    have hb : delim.contains b = false := dropWhile_head_false _ s b r hs1
+    have hlen : (b :: r).length ≤ s.length := by rw [← hs1]; exact length_dropWhile_le' _ _
+    simp only [hs1, List.isEmpty_cons, Bool.false_eq_true, if_false, Option.some.injEq, Prod.mk.injEq] at h
+    obtain ⟨h1, h2⟩ := h
+    have htw : (b :: r).takeWhile (fun b => !delim.contains b) = b :: r.takeWhile (fun b => !delim.contains b) :=
+      takeWhile_cons_true _ b r (by show (!delim.contains b) = true; rw [hb]; rfl)
+    refine ⟨?_, ?_, ?_, ?_⟩
+    · rw [← h1, htw]; simp
+    · intro x hx; rw [← h1] at hx
+      have := mem_takeWhile_true _ _ x hx
+      simpa using this
+    · rw [← h1]; exact List.takeWhile_prefix _
+    · rw [← h2, htw]
+      simp only [List.length_cons, List.drop_succ_cons, drop_length_takeWhile]
+      have := length_drop1_dropWhile_le (fun b => !delim.contains b) r
+      simp only [List.length_cons] at hlen
+      omega
+
+
+end Audit
+
 end PV.Ini
